@@ -2920,7 +2920,9 @@ impl Compiler {
             );
             Some(self.push_offset_placeholder())
         } else {
-            None
+            // The function is unused, so its body needs to be jumped over
+            self.push_op_without_span(Jump, &[]);
+            Some(self.push_offset_placeholder())
         };
 
         let local_count = match u8::try_from(function.local_count) {
